@@ -134,6 +134,10 @@ STATEMENT_STATUS: Dict[str, str] = {
     "C06_unicode_precedence_exact / C06_text_precedence_exact / C06_width_precedence_exact / judgedCode_exact / width_of_unicode":
         "proved: the precedence theorems with NO exclusion of space/no-break-space maps (judged domain = judged glyph "
         "name only); width_of_unicode holds for every code without hypothesis",
+    "utf8_roundtrip / t1_roundtrip_names / npEx_ok": "proved: utf8Chars (utf8Encode cs) = some cs for EVERY character list (1-4 byte "
+        "forms, all boundaries, surrogate gap); the Type 1 header round trip is stated over glyph NAMES (any characters, UTF-8, "
+        "non-regular bytes #XX-escaped): reading the written header returns exactly (key, name); utf8Encode/utf8Chars are tied to "
+        "str.encode / bytes.decode('utf-8') by run_utf8 (incl. damaged encodings), spellName through t1write's name-by-characters form",
     "t1_roundtrip / t1_roundtrip_puts": "proved: for EVERY written header (any leading white space / comments; dup <key> "
                                         "/<name> put lines with signed keys, leading zeros, #xx escapes, any white "
                                         "space / comments between tokens, inert keywords, stray integers) tokeniser + "
@@ -2009,7 +2013,20 @@ def impl_t1puts(data_: bytes) -> str:
     for cid, name in res:
         try:
             name.encode("utf-8")
-            ok = not (name.startswith("b'") or name.startswith('b"'))
+            ok = True
+            if name.startswith("b'") or name.startswith('b"'):
+                # `literal_name` returns str(bytes) - the repr - for a name that is not UTF-8; a genuine name may also
+                # begin with b' (e.g. /b'd): it is the repr only if it reads back as bytes that are NOT valid UTF-8
+                import ast as _ast
+                try:
+                    raw = _ast.literal_eval(name)
+                    if isinstance(raw, bytes):
+                        try:
+                            raw.decode("utf-8")
+                        except UnicodeDecodeError:
+                            ok = False
+                except (ValueError, SyntaxError):
+                    pass
         except UnicodeEncodeError:
             ok = False
         out.append("%d:%s" % (cid, name_arg(("s", name)) if ok else "b"))
@@ -2117,6 +2134,41 @@ def gen_spelled_name(rng) -> List[Any]:
     return items
 
 
+def gen_name_string(rng) -> str:
+    """A glyph name as a character string: every UTF-8 form, the boundaries of the forms, both sides of the surrogate gap."""
+    out = []
+    for _ in range(rng.randint(0, 7)):
+        r = rng.random()
+        if r < 0.4:
+            out.append(chr(rng.choice(_NAME_RAW)))
+        elif r < 0.6:
+            out.append(chr(rng.choice([0x7F, 0x80, 0x7FF, 0x800, 0xD7FF, 0xE000, 0xFFFF, 0x10000, 0x10FFFF, 0, 0x20, 0x23,
+                                       0x2F, 0x28, 0xA0, 0xFFFD, 0xFEFF])))
+        else:
+            v = rng.choice([rng.randrange(0x80), rng.randrange(0x80, 0x800), rng.randrange(0x800, 0x10000),
+                            rng.randrange(0x10000, 0x110000)])
+            if 0xD800 <= v <= 0xDFFF:
+                v = 0xE9
+            out.append(chr(v))
+    return "".join(out)
+
+
+def spell_name_string(sname: str) -> List[Any]:
+    """The spelling of a glyph name (Lean `spellName`, written independently): UTF-8 bytes, raw when regular else #XX."""
+    items: List[Any] = []
+    for b in sname.encode("utf-8"):
+        if b in _NAME_RAW:
+            items.append(("r", b))
+        else:
+            h = "%02X" % b
+            items.append(("e", ord(h[0]), ord(h[1])))
+    return items
+
+
+def cps_word(sname: str) -> str:
+    return ",".join("%x" % ord(ch) for ch in sname) or "-"
+
+
 def name_bytes(items) -> bytes:
     return b"".join(bytes([it[1]]) if it[0] == "r" else b"#" + bytes([it[1], it[2]]) for it in items)
 
@@ -2154,8 +2206,13 @@ def gen_header_items(rng) -> List[Any]:
         r = rng.random()
         if r < 0.6:
             sign, ds = gen_digits(rng)
-            items.append(("P", sign, ds, gen_spelled_name(rng), gen_sep(rng, True), gen_sep(rng, False),
-                          gen_sep(rng, True), gen_sep(rng, True)))
+            if rng.random() < 0.4:
+                sname = gen_name_string(rng)
+                items.append(("P", sign, ds, spell_name_string(sname), gen_sep(rng, True), gen_sep(rng, False),
+                              gen_sep(rng, True), gen_sep(rng, True), sname))
+            else:
+                items.append(("P", sign, ds, gen_spelled_name(rng), gen_sep(rng, True), gen_sep(rng, False),
+                              gen_sep(rng, True), gen_sep(rng, True)))
         elif r < 0.85:
             w = rng.choice(_T1_WORDS) if rng.random() < 0.8 else \
                 bytes(rng.choice(b"abcdefghijklmnopqrstuvwxyzABCDEFGHIJKLMNOPQRSTUVWXYZ") for _ in range(rng.randint(1, 6)))
@@ -2179,7 +2236,8 @@ def header_item_bytes(it) -> bytes:
 
 def header_item_word(it) -> str:
     if it[0] == "P":
-        return "|".join(["P", it[1], it[2], name_word(it[3]), sep_word(it[4]), sep_word(it[5]), sep_word(it[6]),
+        nw = name_word(it[3]) if len(it) < 9 else "N" + cps_word(it[8])      # by characters: the driver spells it (spellName)
+        return "|".join(["P", it[1], it[2], nw, sep_word(it[4]), sep_word(it[5]), sep_word(it[6]),
                          sep_word(it[7])])
     if it[0] == "W":
         return "|".join(["W", C.hx(it[1]), sep_word(it[2])])
@@ -2193,6 +2251,9 @@ def header_intent(items) -> str:
             continue
         k = int(it[2]) * (-1 if it[1] == "m" else 1)
         v = name_value(it[3])
+        if len(it) >= 9:
+            out.append("%d:%s" % (k, name_arg(("s", it[8]))))         # theorem t1_roundtrip_names: the name itself
+            continue
         try:
             nm = v.decode("utf-8")
             out.append("%d:%s" % (k, name_arg(("s", nm))))
@@ -2230,6 +2291,10 @@ def _sep_from_word(w: str):
 def _item_from_word(w: str):
     f = w.split("|")
     if f[0] == "P":
+        if f[3].startswith("N"):
+            sname = "" if f[3] == "N-" else "".join(chr(int(x, 16)) for x in f[3][1:].split(","))
+            return ("P", f[1], f[2], spell_name_string(sname), _sep_from_word(f[4]), _sep_from_word(f[5]),
+                    _sep_from_word(f[6]), _sep_from_word(f[7]), sname)
         nm = [] if f[3] == "-" else [("r", int(x[1:], 16)) if x[0] == "r" else ("e", int(x[1:3], 16), int(x[3:5], 16))
                                      for x in f[3].split(",")]
         return ("P", f[1], f[2], nm, _sep_from_word(f[4]), _sep_from_word(f[5]), _sep_from_word(f[6]), _sep_from_word(f[7]))
@@ -2249,6 +2314,10 @@ def check_t1write(ctx: C.Ctx, cases: List[Tuple[Any, Any]], label: str = "") -> 
                  branch="t1write:" + (label or "+".join(kinds) or "empty"))
         for it in items:
             if it[0] == "P":
+                if len(it) >= 9:
+                    ctx.branch("t1write.put:name-by-characters")
+                    for ch in it[8]:
+                        ctx.branch("t1write.name-char:%d-byte" % len(ch.encode("utf-8")))
                 ctx.branch("t1write.put:" + ("g2-empty" if not it[5] else "g2") + ("/esc" if any(x[0] == "e" for x in it[3]) else "")
                            + ("/sign" if it[1] != "n" else ""))
             for g in ([it[4], it[5], it[6], it[7]] if it[0] == "P" else [it[-1]]):
@@ -2271,6 +2340,58 @@ def check_t1write(ctx: C.Ctx, cases: List[Tuple[Any, Any]], label: str = "") -> 
                 ctx.disagree("t1write.bytes", t1write_json(pad, items), C.hx(data_)[:300], parts[0][:300])
             elif len(parts) < 2 or parts[1] != impl:
                 ctx.disagree("t1write.roundtrip-rhs", t1write_json(pad, items), impl[:300], rep[-300:])
+
+
+def run_utf8(ctx: C.Ctx) -> None:
+    """utf8Encode / utf8Chars (model) against str.encode / bytes.decode('utf-8') (what literal_name uses)."""
+    rng = ctx.rng
+    lines, mine = [], []
+    edge = [0, 0x7F, 0x80, 0x7FF, 0x800, 0xD7FF, 0xE000, 0xFFFF, 0x10000, 0x10FFFF]
+    for i in range(ctx.n(600, 20000)):
+        if i < len(edge):
+            sname = chr(edge[i])
+        else:
+            sname = gen_name_string(rng)
+        enc = sname.encode("utf-8")
+        ctx.case(("utf8enc", sname), bool(sname), branch="utf8:encode")
+        for ch in sname:
+            ctx.branch("utf8:encode:%d-byte" % len(ch.encode("utf-8")))
+        lines.append("utf8enc " + cps_word(sname))
+        mine.append(C.hx(enc))
+        if enc.decode("utf-8") != sname:
+            cfail(ctx, C.Failure("UTF-8: decode(encode(s)) differs from s", {"op": "utf8", "s": cps_word(sname)},
+                                 cps_word(sname), cps_word(enc.decode("utf-8", "replace")), {"op": "utf8"}))
+        # decoding: the encoding as it is, and damaged (truncated, over-long forms, surrogates, bytes above F4, stray
+        # continuation bytes)
+        b = bytearray(enc)
+        kind = "asis"
+        if i % 2 == 1:
+            kind = "damaged"
+            for _ in range(rng.randint(1, 3)):
+                r = rng.random()
+                if r < 0.3 and b:
+                    del b[rng.randrange(len(b))]
+                elif r < 0.7:
+                    pos = rng.randrange(len(b) + 1)
+                    b[pos:pos] = rng.choice([b"\xc0\x80", b"\xc1\xbf", b"\xe0\x80\x80", b"\xe0\x9f\xbf", b"\xed\xa0\x80",
+                                             b"\xed\xbf\xbf", b"\xf0\x80\x80\x80", b"\xf0\x8f\xbf\xbf", b"\xf4\x90\x80\x80",
+                                             b"\xf5\x80\x80\x80", b"\xff", b"\x80", b"\xbf", b"\xc2", b"\xe2\x82", b"\xf0\x9f\x98",
+                                             b"\xc2\x80", b"\xef\xbf\xbf", b"\xf4\x8f\xbf\xbf", b"\xee\x80\x80"])
+                elif b:
+                    b[rng.randrange(len(b))] = rng.randrange(256)
+        data_ = bytes(b)
+        try:
+            dec = "V " + (",".join("%x" % ord(ch) for ch in data_.decode("utf-8")) or "-")
+        except UnicodeDecodeError:
+            dec = "E"
+        ctx.case(("utf8dec", data_), True, branch="utf8:decode:" + kind)
+        ctx.branch("utf8:decode->" + dec[0])
+        lines.append("utf8dec " + C.hx(data_))
+        mine.append(dec)
+    if ctx.driver is not None:
+        for ln, a, bb in zip(lines, mine, ctx.driver.ask(lines)):
+            if a != bb:
+                ctx.disagree(ln.split(" ")[0], {"arg": ln.split(" ", 1)[1][:300]}, a[:200], bb[:200])
 
 
 def run_t1write(ctx: C.Ctx) -> None:
@@ -2505,6 +2626,7 @@ def run(ctx: C.Ctx) -> None:
     run_tables(ctx)
     run_utf16(ctx)
     run_t1puts(ctx)
+    run_utf8(ctx)
     run_t1write(ctx)
     run_names(ctx)
     run_encodings(ctx)
